@@ -121,7 +121,44 @@ def make_summaries(side, locales, fns):
         inner = call_closure(ex, clos, [o.payload])
         return z3.And(o.is_some, inner)
 
+    WS = [9, 10, 11, 12, 13, 32, 0x85, 0xA0, 0x1680] + list(range(0x2000, 0x200B)) + [0x2028, 0x2029, 0x202F, 0x205F, 0x3000]
+
+    def s_split(ex, st, args, callee):
+        s, sep = args
+        if not (isinstance(sep, tuple) and sep[0] == "char"):
+            raise Unsupported("split with %r" % (sep,))
+        return ("split", s, sep[1], 0)
+
+    def s_split_next(ex, st, args, callee):
+        it = args[0]
+        if not (isinstance(it, tuple) and it[0] == "split") or it[3] != 0:
+            raise Unsupported("Split::next on %r" % (it,))
+        seg = side.fresh("split_first")
+        rest = side.fresh("split_rest")
+        sep = z3.StringVal(it[2])
+        side.cons += [it[1] == z3.Concat(seg, rest), z3.Not(z3.Contains(seg, sep)), z3.Or(z3.Length(rest) == 0, z3.PrefixOf(sep, rest))]
+        return Opt(z3.BoolVal(True), seg)
+
+    def s_from_str(ex, st, args, callee):
+        # generated FromStr (decided by C13): Ok(l) iff the trimmed input is l's configured name
+        s = args[0]
+        t, pre, post = side.fresh("trimmed_ws"), side.fresh("ws_pre"), side.fresh("ws_post")
+        ws = z3.Union(*[z3.Re(z3.StringVal(chr(c))) for c in WS])
+        anyc = z3.Star(z3.AllChar(z3.ReSort(z3.StringSort())))
+        side.cons += [s == z3.Concat(pre, t, post), z3.InRe(pre, z3.Star(ws)), z3.InRe(post, z3.Star(ws)),
+                      z3.Not(z3.InRe(t, z3.Concat(ws, anyc))), z3.Not(z3.InRe(t, z3.Concat(anyc, ws)))]
+        conds = [(l, t == z3.StringVal(l)) for l in locales]
+        return Opt(z3.Or([c for _, c in conds]), ("first", conds))
+
+    def s_result_ok(ex, st, args, callee):
+        r = args[0]
+        return Opt(r.is_some, r.payload)
+
     return [
+        (r"impl str>::split::<char>$", s_split),
+        (r"Split<'_, char> as .*Iterator>::next$", s_split_next),
+        (r"<L as FromStr>::from_str$", s_from_str),
+        (r"^Result::<L, .*>::ok$", s_result_ok),
         (r"trim_start_matches::<char>$", s_trim_start),
         (r"strip_prefix::<&str>$", s_strip_prefix),
         (r"as Try>::branch$", s_branch),
